@@ -78,3 +78,13 @@ Example C10_nonvacuous :
   Base2DIn2D_min (mkPolygon2 [mkV2 3 1; mkV2 0 2; mkV2 5 (-1); mkV2 2 7]) = mkV2 0 (-1) /\
   Base2DIn2D_max (mkPolygon2 [mkV2 3 1; mkV2 0 2; mkV2 5 (-1); mkV2 2 7]) = mkV2 5 7.
 Proof. split; vm_compute; reflexivity. Qed.
+
+(* oriented bounds (axis_angle <> 0) first turn every member about the vertical: direction vectors (segments, rays, cone / cylinder axes,
+   plane normals) go through the generated Vector3D.rotate_xy, which keeps the vertical component and the length *)
+From LBG Require Import C10_rotxy.
+Theorem C10_turning_about_the_vertical_keeps_height_and_length : forall qcos qsin v a,
+  v3z (Vector3D_rotate_xy qcos qsin v a) = v3z v /\
+  ((qcos a * qcos a + qsin a * qsin a == 1)%Q ->
+   (dot3 (Vector3D_rotate_xy qcos qsin v a) (Vector3D_rotate_xy qcos qsin v a) == dot3 v v)%Q).
+Proof. intros. split; [apply rotate_xy_keeps_the_vertical_component | apply rotate_xy_keeps_the_length]. Qed.
+Print Assumptions C10_turning_about_the_vertical_keeps_height_and_length.
